@@ -103,13 +103,33 @@ int main(void) {
   B(20); B(0x7B); U(layer); U(dtype); U(w); U(h); I(x); I(y);
   B(28); B(0x46); U(0); B(9); I(sv); B(7); tok_put(K_REALP, rb, 0); B(11); STR1(bch); B(8); U(pv);
   B(7); STR1('p');
+#elif ELEM == 13     /* two PATH records: the first explicit with extension scheme 0x0A (both ends = half-width: the modal extensions take the VALUE w), the second with a
+                        new half-width and nothing else but the position (info 0x58): extensions, point list, layer and datatype come from the modal variables */
+  int32_t d1x = (int32_t)nd_range(-LIM, LIM), d1y = (int32_t)nd_range(-LIM, LIM), d2x = (int32_t)nd_range(-LIM, LIM), d2y = (int32_t)nd_range(-LIM, LIM);
+  ASSUME((d1x != 0 || d1y != 0) && (d2x != 0 || d2y != 0));
+  B(22); B(0xFB); U(layer); U(dtype); U(w); B(0x0A); B(4); U(2); tok_put(K_GD, (uint64_t)(int64_t)d1x, (uint64_t)(int64_t)d1y); tok_put(K_GD, (uint64_t)(int64_t)d2x, (uint64_t)(int64_t)d2y); I(x); I(y);
+  B(22); B(0x58); U(h); I(x2); I(y2);
+#elif ELEM == 14     /* the xy-mode is a modal variable that every CELL record resets to absolute: cell A ends in XYRELATIVE mode, the elements of the next cell are absolute */
+  B(16); B(19); B(0x5B); STR1('t'); U(layer); U(dtype); I(x); I(y);
+  cell_by_name('D');
+  B(19); B(0x5B); STR1('t'); U(layer); U(dtype); I(x2); I(y2);
+  B(19); B(0x5B); STR1('t'); U(layer); U(dtype); I(x); I(y);
+  B(20); B(0x7B); U(layer); U(dtype); U(w); U(h); I(x2); I(y2);
+#elif ELEM == 15     /* CTRAPEZOID of type CT, fully explicit, then - in XYRELATIVE mode - a second one that gives only a position: type, width, height, layer and datatype are modal */
+  { int use_h = CT < 16 || CT == 20 || CT == 21 || CT == 24, use_w = CT != 20 && CT != 21;
+    B(26); B((uint8_t)(0x9B | (use_w ? 0x40 : 0) | (use_h ? 0x20 : 0))); U(layer); U(dtype); B(CT); if (use_w) U(w); if (use_h) U(h); I(x); I(y);
+    B(16); B(26); B(0x18); I(x2); I(y2); }
+#elif ELEM == 16     /* RECTANGLE with a 2 x 3 repetition (type 1), then a RECTANGLE whose repetition field is type 0: re-use the previous repetition */
+  uint32_t sx = (uint32_t)nd_range(0, LIM), sy = (uint32_t)nd_range(0, LIM);
+  B(20); B(0x7F); U(layer); U(dtype); U(w); U(h); I(x); I(y); B(1); U(0); U(1); U(sx); U(sy);
+  B(20); B(0x1C); I(x2); I(y2); B(0);
 #endif
   B(2);                /* END */
   uint8_t fname[2] = {'f', 0}; uint32_t err = 0; Lib lib = {0};
   READ_OAS(&lib, fname, 0.0, 0.0, &err);
   CHECK(err == 0 && vf_open_count == 0 && !tok_kind_error, "loads without error, token kinds as the specification prescribes, handle released");
   CHECK(tok_k == tok_n, "every token of the file was consumed");
-  CHECK(lib.f3.f1 == ((ELEM == 3 || ELEM == 9 || ELEM == 10 || ELEM == 11) ? 2 : 1), "cells");
+  CHECK(lib.f3.f1 == ((ELEM == 3 || ELEM == 9 || ELEM == 10 || ELEM == 11 || ELEM == 14) ? 2 : 1), "cells");
   Cell* c = lib_cell(&lib, 0); CHECK(c->f0[0] == 'A' && c->f0[1] == 0, "cell name");
 #if ELEM == 0 || ELEM == 1
   CHECK(c->f1.f1 == (ELEM == 1 ? 2 : 1), "polygons");
@@ -130,6 +150,35 @@ int main(void) {
     CHECK(r->f0 == 0 && *(Cell**)&r->f1 == lib_cell(&lib, 1) && lib_cell(&lib, 1)->f0[0] == 'D', "placement by name resolved to the cell defined later");
     CHECK(VXD(r->f2) == (double)x && VYD(r->f2) == (double)y && r->f4 == 1.0 && (r->f5 & 1) == refl, "origin, unit magnification, reflection bit");
     CHECK(r->f3 == (RC == 0 ? 0.0 : RC == 1 ? 3.14159265358979323846 * 0.5 : RC == 2 ? 3.14159265358979323846 : 3.14159265358979323846 * 1.5), "rotation code: 0 / 90 / 180 / 270 degrees"); }
+#elif ELEM == 15
+  { CHECK(c->f1.f1 == 2, "two polygons"); Poly* p = ((Poly**)c->f1.f2)[1]; double* q = (double*)p->f1.f2; int64_t rx[4], ry[4], gx[4], gy[4];
+    int n = ref_ctrapezoid(CT, (int64_t)w, (int64_t)h, rx, ry);
+    CHECK(p->f0 == TAG(layer, dtype) && p->f1.f1 == (uint64_t)n, "layer, datatype and ctrapezoid type from the modal variables");
+    int exact = 1; for (int i = 0; i < 4; i++) if (i < n) { gx[i] = (int64_t)q[2 * i]; gy[i] = (int64_t)q[2 * i + 1]; if ((double)gx[i] != q[2 * i] || (double)gy[i] != q[2 * i + 1]) exact = 0; rx[i] += (int64_t)x + x2; ry[i] += (int64_t)y + y2; }
+    CHECK(exact && ref_same_cycle(n, gx, gy, rx, ry), "the same shape (modal width / height) at the accumulated position"); }
+#elif ELEM == 16
+  { CHECK(c->f1.f1 == 2, "two polygons"); Poly* p0 = ((Poly**)c->f1.f2)[0]; Poly* p1 = ((Poly**)c->f1.f2)[1];
+    uint64_t* u0 = (uint64_t*)((uint8_t*)&p0->f2 + 8); uint64_t* u1 = (uint64_t*)((uint8_t*)&p1->f2 + 8); double* s0 = (double*)((uint8_t*)&p0->f2 + 24); double* s1 = (double*)((uint8_t*)&p1->f2 + 24);
+    CHECK(p0->f2.f0 == 1 && u0[0] == 2 && u0[1] == 3 && s0[0] == (double)sx && s0[1] == (double)sy, "first rectangle: rectangular repetition 2 x 3 with the given spacing");
+    CHECK(p1->f2.f0 == 1 && u1[0] == 2 && u1[1] == 3 && s1[0] == (double)sx && s1[1] == (double)sy, "second rectangle: the same repetition (type 0 = re-use)");
+    double* q = (double*)p1->f1.f2; CHECK(p1->f0 == TAG(layer, dtype) && q[0] == (double)x2 && q[1] == (double)y2 && q[4] == (double)x2 + (double)w && q[5] == (double)y2 + (double)h, "layer, datatype, width and height modal; its own position"); }
+#elif ELEM == 13
+  { CHECK(c->f3.f1 == 2, "two paths"); FPath* p1 = ((FPath**)c->f3.f2)[1]; struct S_struct_gdstk__FlexPathElement* el = p1->f1;
+    CHECK(p1->f2 == 1 && el->f0 == TAG(layer, dtype), "layer and datatype from the modal variables");
+    CHECK(p1->f0.f0.f1 == 3 && el->f1.f1 == 3, "point list from the modal variable");
+    double* sp = (double*)p1->f0.f0.f2; double* wo = (double*)el->f1.f2; double X = (double)x2, Y = (double)y2;
+    CHECK(sp[0] == X && sp[1] == Y && sp[4] == X + (double)d1x + (double)d2x && sp[5] == Y + (double)d1y + (double)d2y, "spine = new position + the modal deltas");
+    CHECK(wo[0] == (double)h && wo[4] == (double)h, "the new half-width");
+    /* modal extensions hold the VALUE of the first record's half-width (w), not "half-width" as a notion */
+    if (w == 0) CHECK(el->f5 == 0 || (el->f5 == 3 && VXD(el->f6) == 0.0 && VYD(el->f6) == 0.0), "both ends flush");
+    else if (w == h) CHECK(el->f5 == 2 || (el->f5 == 3 && VXD(el->f6) == (double)w && VYD(el->f6) == (double)w), "extensions equal to this path's half-width");
+    else CHECK(el->f5 == 3 && VXD(el->f6) == (double)w && VYD(el->f6) == (double)w, "ends extended by the modal extension value (the first path's half-width)"); }
+#elif ELEM == 14
+  { Cell* d = lib_cell(&lib, 1); CHECK(d->f5.f1 == 2 && d->f1.f1 == 1, "two labels and a rectangle in the second cell");
+    Label* l0 = ((Label**)d->f5.f2)[0]; Label* l1 = ((Label**)d->f5.f2)[1];
+    CHECK(VXD(l0->f2) == (double)x2 && VYD(l0->f2) == (double)y2 && VXD(l1->f2) == (double)x && VYD(l1->f2) == (double)y, "text positions in the new cell are absolute");
+    double* q0 = (double*)((Poly**)d->f1.f2)[0]->f1.f2;
+    CHECK(q0[0] == (double)x2 && q0[1] == (double)y2, "geometry positions in the new cell are absolute"); }
 #elif ELEM == 9
   { CHECK(lib.f3.f1 == 2, "two cells"); Cell* d = lib_cell(&lib, 1);
     CHECK(d->f0 && d->f0[0] == 'D' && d->f0[1] == 0, "second cell named through the CELLNAME table");
